@@ -4,6 +4,8 @@ import itertools
 import numpy as np
 
 from .. import core, symbols
+from ..translate import resample as tr_resample
+from ..translate import spectral as tr_spectral
 
 ID = "C15"
 PROPS_FILE = "C15"
@@ -12,7 +14,21 @@ RULE = ("correspondence: for every (N_old, N_new) pair (all parities, N_new = N_
         "(shared with C04); witness: FourierInterpolator reproduces every state at its grid points (white noise, even N with Nyquist content), returns the analytic value of Nyquist-free "
         "trigonometric polynomials at arbitrary points inside and outside the domain, map_between_resolutions up/down/round trip exact on such polynomials, mean preserved for every state. "
         "Non-trivial: all cases; distinct by input hash.")
+TRUSTED_EXTRA = ["harness/translate/resample.py (map_between_resolutions: array statements compared as text, decisions translated) and harness/translate/spectral.py (its callees)"]
 ASSUMPTIONS = ["rfftn/irfftn of C04; the real-valued half-spectrum form of the interpolant (reconstruction weights) is checked numerically, the theorem is the full-spectrum statement"]
+
+
+def translate(ctx):
+    """Gen/ResampleGen.v (decisions of map_between_resolutions, theorem C15_code_resampling_decisions_are_model) and
+    Gen/SpectralGen.v (its callees); both are always attempted"""
+    errors = []
+    for name, tr in (("resample", tr_resample), ("spectral", tr_spectral)):
+        try:
+            tr.run()
+        except Exception as e:
+            errors.append(f"{name}: {type(e).__name__}: {e}")
+    if errors:
+        raise RuntimeError("; ".join(errors))
 
 
 def _ex():
